@@ -2249,9 +2249,22 @@ impl LpgStore {
         };
 
         let backward: Box<dyn Iterator<Item = (NodeId, EdgeId)>> = match direction {
-            Direction::Incoming | Direction::Both => {
+            Direction::Incoming => {
                 if let Some(ref adj) = self.backward_adj {
                     Box::new(adj.edges_from(node).into_iter())
+                } else {
+                    Box::new(std::iter::empty())
+                }
+            }
+            Direction::Both => {
+                if let Some(ref adj) = self.backward_adj {
+                    // A self-loop is in both adjacency lists of its node; it was already
+                    // produced by the forward half, so it is one edge, not two.
+                    Box::new(
+                        adj.edges_from(node)
+                            .into_iter()
+                            .filter(move |(other, _)| *other != node),
+                    )
                 } else {
                     Box::new(std::iter::empty())
                 }
